@@ -179,8 +179,30 @@ class C01(Prop):
             return "google"
         return "numpydoc"
 
+    RAISES = {
+        "C01-untyped-entry": {"ValueError", "AttributeError", "IndexError", "KeyError", "TypeError", "SyntaxError"},
+        "C01-entry-without-prose": {"ValueError", "AttributeError", "IndexError", "KeyError", "TypeError"},
+        "C17-code-default-unquoted": {"SyntaxError", "ValueError", "TypeError"},
+        "C17-D5-dot-in-value": {"SyntaxError", "ValueError"},
+        "C17-D9-prose-mentions-defaults": {"SyntaxError", "ValueError"},
+    }
+
     def classify(self, c, fl):
-        return classify_ir(c["ir"], c["style"], c["emit_dd"])
+        """every difference must be explained by a finding that covers that field of that entry"""
+        from ..astkinds import covered_by
+
+        ex = explain_ir(c["ir"], c["style"], c["emit_dd"])
+        if not ex:
+            return None
+        if not isinstance(fl, dict) or not fl.get("what"):
+            return ex[0][0]
+        if fl["what"] in ("parse raised", "emit raised"):
+            return next((cid for cid, _, _ in ex if fl.get("exc") in self.RAISES.get(cid, ())), None)
+        if fl["what"] == "style misrecognised":
+            return next((cid for cid, _, keys in ex if "style" in keys), None)
+        if fl.get("diffs") is None:
+            return ex[0][0]
+        return covered_by(ex, fl["diffs"])
 
 
 def _is_code(v):
@@ -228,6 +250,47 @@ def classify_ir(ir, style, emit_dd, kinds=("rest", "numpydoc", "google")):
     if style == "google" and ir["returns"] is not None:
         return "C01-D8-google-return-type-as-prose"
     return None
+
+
+def explain_ir(ir, style, emit_dd):
+    """scoped form of classify_ir: [(finding id, {entry: fields | None} | None = every entry, structural keys)]"""
+    from ..astkinds import optional_prose, prose_less_breaks, untyped_breaks
+
+    ALL = {"typ", "prose", "default"}
+    STRUCT = {"order", "summary", "lost", "invented", "style"}
+    entries = list(ir["params"]) + ([["return_type", ir["returns"]]] if ir["returns"] is not None else [])
+    out = []
+    loose = style in ("numpydoc", "google")  # an entry that is not recognised takes the following text with it
+    if untyped_breaks(style, ir):
+        out.append(("C01-untyped-entry", None if loose else {n: ALL for n, p in entries if "typ" not in p}, STRUCT if loose else set()))
+    if prose_less_breaks(style, ir):
+        # (ReST: an entry with neither prose nor type is not written at all)
+        bare = any("doc" not in p and "typ" not in p for _, p in entries)
+        out.append(("C01-entry-without-prose", None if loose else {n: ALL for n, p in entries if "doc" not in p}, STRUCT if loose else ({"lost"} | ({"order", "style"} if bare else set()))))
+    for n, p in entries:
+        d = p.get("default")
+        if d is not None and emit_dd:
+            if _is_code(d):
+                out.append(("C17-code-default-unquoted", {n: ALL}, set()))
+            if d["t"] == "str" and _dot_outside_brackets(d["v"]):
+                out.append(("C17-D5-dot-in-value", {n: {"default", "prose"}}, set()))
+            if "efaults" in p.get("doc", "") and not G.has_own_default_sentence(p):
+                out.append(("C17-D9-prose-mentions-defaults", {n: {"default", "prose"}}, set()))
+        if optional_prose(p):
+            out.append(("AST-prose-starting-with-optional-wraps-the-type", {n: {"typ"}}, set()))
+    if loose:
+        seen_default = False
+        names = {}
+        for n, p in entries:
+            if "default" in p:
+                seen_default = True
+            elif seen_default and not n.endswith("kwargs"):
+                names[n] = {"default"}
+        if names:
+            out.append(("C01-D7-default-invented-after-defaulted", names, set()))
+    if style == "google" and ir["returns"] is not None:
+        out.append(("C01-D8-google-return-type-as-prose", {"return_type": ALL}, {"lost", "invented"}))
+    return out
 
 
 PROP = C01()
